@@ -68,6 +68,9 @@ struct BsWorld {
     repair_shred_done: bool,
     /// the blockstore was told to delete everything BEFORE the block's slot (the slot itself stays)
     pruned_below_slot: bool,
+    /// a genuine shred whose data/coding tag a relay flipped (the tag is covered neither by the
+    /// signature nor by the Merkle path) was delivered; the blockstore drops it without any effect
+    tag_flipped_done: bool,
     first_shreds: usize,
     blocks: usize,
     invalids: usize,
@@ -96,6 +99,7 @@ impl Sys for BsSys {
             redelivered: vec![false; self.n_slices()],
             repair_shred_done: false,
             pruned_below_slot: false,
+            tag_flipped_done: false,
             first_shreds: 0,
             blocks: 0,
             invalids: 0,
@@ -105,7 +109,7 @@ impl Sys for BsSys {
     }
 
     fn num_actions(&self) -> usize {
-        2 * self.n_slices() + self.shape.alts.len() + 2
+        2 * self.n_slices() + self.shape.alts.len() + 3
     }
 
     fn enabled(&self, w: &BsWorld, _h: &[u16], a: u16) -> bool {
@@ -121,8 +125,10 @@ impl Sys for BsSys {
         } else if a == 2 * n + self.shape.alts.len() {
             // only for well-formed blocks (repair is requested for certified blocks)
             !w.repair_shred_done && self.shape.expect == Expect::Clean
-        } else {
+        } else if a == 2 * n + self.shape.alts.len() + 1 {
             !w.pruned_below_slot
+        } else {
+            !w.tag_flipped_done && self.shape.expect == Expect::Clean
         }
     }
 
@@ -157,7 +163,28 @@ impl Sys for BsSys {
             }
             events.extend(ev);
             what = format!("re-deliver last shred of slice {j}");
-        } else if a > 2 * n + sh.alts.len() {
+        } else if a > 2 * n + sh.alts.len() + 1 {
+            // a genuine shred (last slice, a position the stages never deliver first) with its tag flipped
+            w.tag_flipped_done = true;
+            let genuine = &sh.block.shreds[n - 1][63];
+            let mut m: crate::wire::MShred = crate::wire::to_mirror(genuine.as_shred());
+            m.flip_tag();
+            let flipped = crate::wire::from_mirror::<crate::wire::MShred, alpenglow::shredder::Shred>(&m)
+                .ok()
+                .and_then(|sh2| ValidatedShred::try_new(sh2, None, &leader_key().to_pk()).ok());
+            match flipped {
+                Some(v) => {
+                    let (r, ev) = w.bs.add_diss(v);
+                    if check && (r.is_ok() || !ev.is_empty()) {
+                        out.push("C13:tag-flipped-shred-not-dropped-silently".to_string(), format!("a genuine shred with its data/coding tag flipped: result {:?}, events {ev:?}", r.map(|_| ())));
+                    }
+                    events.extend(ev);
+                }
+                // validation refuses it already: nothing reaches the blockstore
+                None => {}
+            }
+            what = "a genuine shred of the last slice with its data/coding tag flipped".to_string();
+        } else if a == 2 * n + sh.alts.len() + 1 {
             // pruning up to (not including) the block's own slot must not disturb anything
             w.pruned_below_slot = true;
             w.bs.bs.prune(Slot::new(SLOT));
@@ -285,6 +312,7 @@ impl Sys for BsSys {
         w.redelivered.hash(&mut h);
         w.repair_shred_done.hash(&mut h);
         w.pruned_below_slot.hash(&mut h);
+        w.tag_flipped_done.hash(&mut h);
         (w.first_shreds, w.blocks, w.invalids).hash(&mut h);
         // observable blockstore state
         let id: BlockId = (Slot::new(SLOT), self.shape.block.hash.clone());
@@ -307,8 +335,10 @@ impl Sys for BsSys {
             format!("deliver alternative signed shred: {}", self.shape.alts[a - 2 * n].2)
         } else if a == 2 * n + self.shape.alts.len() {
             "one shred of the same block arrives through the repair path".to_string()
-        } else {
+        } else if a == 2 * n + self.shape.alts.len() + 1 {
             format!("the blockstore prunes everything before slot {SLOT}")
+        } else {
+            "a genuine shred with its data/coding tag flipped arrives".to_string()
         }
     }
 
